@@ -489,6 +489,80 @@ func checkC01(e *Engine, r *Report) {
 				return true, isConstEq(b.Y, k) == (b.Op == token.EQL)
 			}
 		}
+		// the composed set actually reaches the runtime: setPreferredCpusetCpus tells its container the set it is given (or
+		// that set with hyperthreads hidden), and applyGrant calls it whenever CPU pinning is on, the class is pinned and
+		// the composed set is not empty — it never clears the cpuset of a container that has CPUs
+		if setPref != nil && len(setPref.Params) >= 3 {
+			contP, allocP := ssa.Value(setPref.Params[1]), ssa.Value(setPref.Params[2])
+			tells := func(in ssa.Instruction) bool {
+				ci, ok := in.(ssa.CallInstruction)
+				if !ok || callObj(ci.Common()) == nil || callObj(ci.Common()).Name() != "SetCpusetCpus" {
+					return false
+				}
+				a := callArgs(ci)
+				if len(a) != 2 || !sameObject(a[0], contP) {
+					return false
+				}
+				str, ok := a[1].(*ssa.Call)
+				if !ok || callObj(str.Common()) == nil || callObj(str.Common()).Name() != "String" {
+					return false
+				}
+				return originAll(callArgs(str)[0], func(v ssa.Value) bool {
+					if sameObject(v, allocP) {
+						return true
+					}
+					if c2, ok := v.(*ssa.Call); ok && callObj(c2.Common()) != nil && callObj(c2.Common()).Name() == "SingleThreadForCPUs" {
+						a2 := callArgs(c2)
+						return len(a2) == 2 && sameObject(a2[1], allocP)
+					}
+					return false
+				})
+			}
+			p := FindPath(PathQuery{Fn: setPref, Target: isRet, Block: tells})
+			r.Check("R6:told-set-reaches-runtime@setPreferredCpusetCpus", "R6+R11 composition of the told cpuset", "setPreferredCpusetCpus tells its container the CPU set it was given, or that set reduced to one thread per core", e.Pos(setPref.Pos()), setPref, p == nil, e.pathString(p), true)
+		}
+		for _, c := range e.callsTo(ag, setPref) {
+			cpus := callArgs(c)[2]
+			for _, cls := range []struct {
+				k    *types.Const
+				name string
+			}{{cpuNormal, "normal"}, {cpuReserved, "reserved"}} {
+				if cls.k == nil {
+					continue
+				}
+				ofClass := classIs(cls.k)
+				pinned := func(cond ssa.Value) (bool, bool) {
+					if f, _ := loadedField(cond); f != nil && f.Name() == "PinCPU" {
+						return true, true
+					}
+					if k, v := ofClass(cond); k {
+						return k, v
+					}
+					b, ok := cond.(*ssa.BinOp)
+					if !ok {
+						return false, false
+					}
+					if isConstInt(b.Y, 0) {
+						if sz, ok := b.X.(*ssa.Call); ok && callObj(sz.Common()) != nil && callObj(sz.Common()).Name() == "Size" && sameObject(callArgs(sz)[0], cpus) {
+							return cmpZero(sgPos, b.Op)
+						}
+					}
+					return false, false
+				}
+				cc := c
+				p := FindPath(PathQuery{Fn: ag, Assume: pinned, Target: isRet, Block: func(in ssa.Instruction) bool { return in == cc.(ssa.Instruction) }})
+				r.Check("R6:told-set-reaches-runtime@applyGrant#pinned-"+cls.name, "R6+R11 composition of the told cpuset", "with CPU pinning on and a non-empty composed set, applyGrant tells a "+cls.name+"-class container that set", e.InstrPos(c), ag, p == nil, e.pathString(p), true)
+				p = FindPath(PathQuery{Fn: ag, Assume: pinned, Target: func(in ssa.Instruction) bool {
+					ci, ok := in.(ssa.CallInstruction)
+					if !ok || callObj(ci.Common()) == nil || callObj(ci.Common()).Name() != "SetCpusetCpus" {
+						return false
+					}
+					k, isK := callArgs(ci)[1].(*ssa.Const)
+					return isK && k.Value != nil && k.Value.ExactString() == `""`
+				}})
+				r.Check("R6:told-set-reaches-runtime@applyGrant#never-cleared-"+cls.name, "R6+R11 composition of the told cpuset", "applyGrant does not clear the cpuset of a "+cls.name+"-class container whose composed set is non-empty (an unpinned container could run on other containers' exclusive CPUs)", e.InstrPos(c), ag, p == nil, e.pathString(p), true)
+			}
+		}
 		for _, c := range e.callsTo(ag, setPref) {
 			cpus := callArgs(c)[2]
 			for _, cls := range []struct {
@@ -587,6 +661,16 @@ func checkC01(e *Engine, r *Report) {
 			x := ve.eval(callArgs(c)[2])
 			ok, w := vennHolds(nil, []vennFact{subset(x, sxOr(sxBase("ExclusiveCPUs(other)"), sxBase("FreeSharable(other.node)")))})
 			r.Check("R11:told-set@updateSharedAllocations", "R6+R11 composition of the told cpuset", "re-pinning tells a container only its own exclusive CPUs and the free sharable CPUs of its own pool", e.InstrPos(c), usa, ok && len(ve.undec) == 0, w+strings.Join(ve.undec, ";"), true)
+			// … and keeps the container's own exclusive CPUs in the set: under the emptiness tests that dominate the call,
+			// ExclusiveCPUs(other) ⊆ told
+			var given []vennFact
+			for _, cf := range dominatingConds(c.Block()) {
+				if call, ok := cf.Cond.(*ssa.Call); ok && callObj(call.Common()) != nil && callObj(call.Common()).Name() == "IsEmpty" && cf.Val {
+					given = append(given, subset(ve.eval(callArgs(call)[0]), sxEmpty()))
+				}
+			}
+			ok2, w2 := vennHolds(given, []vennFact{subset(sxBase("ExclusiveCPUs(other)"), x)})
+			r.Check("R11:told-set-keeps-exclusive@updateSharedAllocations", "R6+R11 composition of the told cpuset", "re-pinning never drops a container's own exclusive CPUs from the set it is told", e.InstrPos(c), usa, ok2, w2, true)
 		}
 	}
 
